@@ -16,6 +16,7 @@ from ..common import Report, stream, digest, order_to_decisions, big
 from ..engine import Engine, Monitor, Scripted
 from ..ops import canon_rt
 from ..edits import gen_edit, apply_edit
+from ..isolation import pristine_state
 from ..terms import World, snap
 
 PID = "C06"
@@ -157,15 +158,16 @@ def reference(world, ri, di):
     edits = st["edits"].get(di, ())
     key = (ri, di, len(edits))
     if key not in st["ref"]:
-        fresh = World(world.term)
-        try:
-            doc = fresh.get("docs", di)
-            for e in edits:
-                apply_edit(doc, e)
-            rt = fresh.get("rules", ri).test(doc)
-            st["ref"][key] = ("ok", core_rt(rt))
-        except Exception as e:
-            st["ref"][key] = ("raise", type(e).__name__)
+        with pristine_state():
+            fresh = World(world.term)
+            try:
+                doc = fresh.get("docs", di)
+                for e in edits:
+                    apply_edit(doc, e)
+                rt = fresh.get("rules", ri).test(doc)
+                st["ref"][key] = ("ok", core_rt(rt))
+            except Exception as e:
+                st["ref"][key] = ("raise", type(e).__name__)
     return st["ref"][key]
 
 
